@@ -176,12 +176,39 @@ impl<'a, 'b> GeneratorState<'a> {
         }
     }
 
+    // The post-increments of a condition, and the restoration of Y when it has been borrowed,
+    // must happen on both paths: they are emitted before the branch, with the flags preserved
+    fn flush_pending_before_branch(&mut self) -> Result<(), Error> {
+        // What was pending before the condition (a post-increment whose operand is not loaded
+        // yet, a Y borrowed by the left value of an assignment) stays pending
+        let saved_y = self.saved_y;
+        let restore_y = saved_y && !self.y_saved_before_condition;
+        let first = self.deferred_before_condition.min(self.deferred_plusplus.len());
+        if self.deferred_plusplus.len() > first || restore_y {
+            let state = (self.flags.clone(), self.acc_in_use, self.carry_flag_ok);
+            self.sasm(PHP)?;
+            // The accumulator may still be tested after the branch
+            self.acc_in_use = true;
+            let outer: Vec<_> = self.deferred_plusplus.drain(..first).collect();
+            self.saved_y = restore_y;
+            self.purge_deferred_plusplus_and_savey()?;
+            if !restore_y {
+                self.saved_y = saved_y;
+            }
+            self.deferred_plusplus = outer;
+            self.sasm(PLP)?;
+            (self.flags, self.acc_in_use, self.carry_flag_ok) = state;
+        }
+        Ok(())
+    }
+
     fn generate_branch_instruction(
         &mut self,
         op: &Operation,
         signed: bool,
         label: &str,
     ) -> Result<(), Error> {
+        self.flush_pending_before_branch()?;
         // Branch instruction
         match op {
             Operation::Neq => {
@@ -245,6 +272,7 @@ impl<'a, 'b> GeneratorState<'a> {
         signed: bool,
         label: &str,
     ) -> Result<(), Error> {
+        self.flush_pending_before_branch()?;
         // Branch instruction
         match op {
             Operation::Neq => {
@@ -489,6 +517,7 @@ impl<'a, 'b> GeneratorState<'a> {
                 if flags_ok(&self.flags, left) {
                     match operator {
                         Operation::Neq => {
+                            self.flush_pending_before_branch()?;
                             self.asm(BNE, &ExprType::Label(label.into()), pos, false)?;
                             match left {
                                 ExprType::A(_) => self.acc_in_use = false,
@@ -498,6 +527,7 @@ impl<'a, 'b> GeneratorState<'a> {
                             return Ok(());
                         }
                         Operation::Eq => {
+                            self.flush_pending_before_branch()?;
                             self.asm(BEQ, &ExprType::Label(label.into()), pos, false)?;
                             match left {
                                 ExprType::A(_) => self.acc_in_use = false,
@@ -784,6 +814,22 @@ impl<'a, 'b> GeneratorState<'a> {
         label: &str,
         immediate_special: bool,
     ) -> Result<Option<bool>, Error> {
+        let outer = (self.y_saved_before_condition, self.deferred_before_condition);
+        self.y_saved_before_condition = self.saved_y;
+        self.deferred_before_condition = self.deferred_plusplus.len();
+        let res = self.generate_condition_body(condition, pos, negate, label, immediate_special);
+        (self.y_saved_before_condition, self.deferred_before_condition) = outer;
+        res
+    }
+
+    fn generate_condition_body(
+        &mut self,
+        condition: &Expr,
+        pos: usize,
+        negate: bool,
+        label: &str,
+        immediate_special: bool,
+    ) -> Result<Option<bool>, Error> {
         debug!("Condition: {:?}", condition);
         match condition {
             Expr::BinOp { lhs, op, rhs } => {
@@ -942,6 +988,7 @@ impl<'a, 'b> GeneratorState<'a> {
             if let ExprType::Tmp(_) = expr {
                 self.tmp_in_use = false;
             }
+            self.flush_pending_before_branch()?;
             if negate {
                 self.asm(BEQ, &ExprType::Label(label.into()), pos, false)?;
             } else {
@@ -1026,6 +1073,7 @@ impl<'a, 'b> GeneratorState<'a> {
                 }
             }
 
+            self.flush_pending_before_branch()?;
             if negate {
                 self.asm(BEQ, &ExprType::Label(label.into()), 0, false)?;
             } else {
